@@ -38,6 +38,8 @@ enum CWrap {
     Plain,
     Boxed,
     Arc,
+    /// `Dispatch::from_static` of a leaked collector
+    Static,
 }
 #[derive(Clone, Copy, Debug, Default, Serialize, Deserialize, PartialEq)]
 struct LeafCfg {
@@ -211,6 +213,7 @@ fn build(case: &Case, tree: Option<&Node>, cwrap: CWrap) -> Run {
                 CWrap::Plain => Dispatch::new(c),
                 CWrap::Boxed => Dispatch::new(Box::new(c)),
                 CWrap::Arc => Dispatch::new(Arc::new(c)),
+                CWrap::Static => Dispatch::from_static(Box::leak(Box::new(c))),
             };
             Run { dispatch, logs, base_log: None, hint }
         }
@@ -226,6 +229,7 @@ fn build(case: &Case, tree: Option<&Node>, cwrap: CWrap) -> Run {
                 CWrap::Plain => Dispatch::new(c),
                 CWrap::Boxed => Dispatch::new(Box::new(c)),
                 CWrap::Arc => Dispatch::new(Arc::new(c)),
+                CWrap::Static => Dispatch::from_static(Box::leak(Box::new(c))),
             };
             Run { dispatch, logs, base_log: Some(bl), hint }
         }
@@ -317,7 +321,8 @@ fn workload(d: &Dispatch, ops: &[Op], marks: &mut Vec<(Did, u64)>) {
                 _ => Did::Skipped,
             },
             Op::Enter { slot } => match &slots[slot as usize % NSLOT] {
-                Some(id) if !entered.contains(id) => {
+                // (a span that is already entered may be entered again: one more enter / exit pair)
+                Some(id) => {
                     d.enter(id);
                     entered.push(id.clone());
                     Did::Enter
@@ -481,6 +486,7 @@ fn run_case(case: &Case) -> Outcome {
     match case.cwrap {
         CWrap::Boxed => kinds.push("collector:Box"),
         CWrap::Arc => kinds.push("collector:Arc"),
+        CWrap::Static => kinds.push("collector:from_static"),
         CWrap::Plain => {}
     }
     kinds.sort();
@@ -705,7 +711,7 @@ impl Property for C09 {
         ];
         let cfg = proptest::collection::vec((proptest::option::weighted(0.15, 1u8..=5), proptest::option::weighted(0.15, 0i64..N as i64)).prop_map(|(veto_level, veto_cs)| LeafCfg { veto_level, veto_cs }), 5);
         let max = tier.pick(25usize, 40usize);
-        let cw = prop_oneof![2 => Just(CWrap::Plain), 1 => Just(CWrap::Boxed), 1 => Just(CWrap::Arc)];
+        let cw = prop_oneof![2 => Just(CWrap::Plain), 1 => Just(CWrap::Boxed), 1 => Just(CWrap::Arc), 1 => Just(CWrap::Static)];
         let a = (c09_node(true), cfg.clone(), proptest::collection::vec(op.clone(), 1..max), cw.clone()).prop_map(|(tree, cfg, ops, cwrap)| Case { base: Base::Registry, cwrap, tree, cfg, ops });
         let b = (c09_node(false), cfg, proptest::collection::vec(op, 1..max), cw).prop_map(|(tree, cfg, ops, cwrap)| Case { base: Base::IdChanging, cwrap, tree, cfg, ops });
         prop_oneof![3 => a, 1 => b].boxed()
@@ -714,7 +720,7 @@ impl Property for C09 {
         run_case(case)
     }
     fn rule(&self) -> String {
-        "case = base collector (Registry | id-changing recorder) x collector wrapper (none|Box|Arc) x tree of 1-5 recording leaves with nested wrappers (Box, Some, one-element Vec, reload, Identity; None and [] inserted as siblings; for the Registry base also Filtered leaves whose filter is wrapped in Arc/reload/Some) x per-leaf veto configuration (enabled() veto by level, event_enabled() veto by field value) x <=25 (thorough <=40) ops {Event(gated by enabled or not),NewSpan,Record,Follows,Enter,Exit,CloneSpan,Close} issued through Dispatch on 60 static metadata after registering every callsite. non-trivial: at least one wrapper present and >= 8 distinct trait methods observed by the leaves; distinct by case".into()
+        "case = base collector (Registry | id-changing recorder) x collector wrapper (none|Box|Arc|Dispatch::from_static) x tree of 1-5 recording leaves with nested wrappers (Box, Some, one-element Vec, reload, Identity; None and [] inserted as siblings; for the Registry base also Filtered leaves whose filter is wrapped in Arc/reload/Some) x per-leaf veto configuration (enabled() veto by level, event_enabled() veto by field value) x <=25 (thorough <=40) ops {Event(gated by enabled or not),NewSpan,Record,Follows,Enter,Exit,CloneSpan,Close} issued through Dispatch on 60 static metadata after registering every callsite. non-trivial: at least one wrapper present and >= 8 distinct trait methods observed by the leaves; distinct by case".into()
     }
     fn assumptions(&self) -> Vec<String> {
         vec![
